@@ -24,6 +24,17 @@ package main
 //	               of that write ends - whatever the transport lets it do then happens
 //	               deterministically (a ping after `complete` if `closed` is set in a
 //	               later critical section)
+//	               Several holds may be given, separated by commas. The decisive pair is
+//	               "flush:next:<n>,flush:complete" in a server running on ONE processor
+//	               (GOMAXPROCS=1): keepAlive parks on mu during the slow flush of the last
+//	               event (> 1 ms, sync.Mutex's starvation threshold); the handler's Unlock
+//	               readies it but the handler keeps the processor, takes mu again for
+//	               `complete` and blocks in ITS slow flush; keepAlive now wakes, finds mu
+//	               locked after waiting > 1 ms and switches the mutex to starvation mode, so
+//	               the Unlock that ends the `complete` section hands mu DIRECTLY to keepAlive,
+//	               before the handler's deferred close() can take it. The model's schedule
+//	               (Tick during `complete`, KPingBegin right after its MFlushEnd, then MClose)
+//	               is thereby forced, not hoped for.
 //	"flush:close" | "flush:n:<j>"   multipart/mixed (/h/mm/...): the Flush after the write
 //	               of the closing delimiter / the j-th Flush call stays open for 4 ms, so
 //	               the other flusher (ticker goroutine or Done) is parked on the aggregator
@@ -47,6 +58,7 @@ import (
 type gateObs struct {
 	Overlaps    []string `json:"overlaps"`     // "<kind in progress>|<kind entering>"
 	AfterReturn []string `json:"after_return"` // kinds of calls that entered after Do had returned
+	AfterHold   []string `json:"after_hold"`   // per held Flush: kind of the next Write that entered and how long after the hold ended, e.g. "ping@35us"
 	AfterFinal  []string `json:"after_final"`  // kinds of Write calls that entered after the Write of `complete` / of the closing delimiter
 	Held        bool     `json:"held"`         // the targeted call was reached and held
 	Met         bool     `json:"met"`          // ... and another goroutine's write entered while it was held
@@ -62,8 +74,9 @@ type gateWriter struct {
 	inflight map[string]int
 	nexts    int
 	flushes  int
-	last     string // kind (and number) of the last Write that entered
-	final    bool   // a `complete` / closing delimiter Write has entered
+	last     string    // kind (and number) of the last Write that entered
+	final    bool      // a `complete` / closing delimiter Write has entered
+	holdEnd  time.Time // end of the last held Flush not yet followed by a Write
 	returned bool
 	obs      gateObs
 	arrived  chan string // kinds of calls entering, for the holder
@@ -119,11 +132,15 @@ func (g *gateWriter) enter(kind string) (forward bool, holdIt bool) {
 	}
 	if kind == "flush" {
 		g.flushes++
-		if g.hold == "flush:"+g.last || g.hold == "flush:n:"+itoa(g.flushes) {
+		if g.holds("flush:"+g.last) || g.holds("flush:n:"+itoa(g.flushes)) {
 			g.obs.Held = true
 			return true, true
 		}
 		return true, false
+	}
+	if !g.holdEnd.IsZero() {
+		g.obs.AfterHold = append(g.obs.AfterHold, kind+"@"+time.Since(g.holdEnd).Round(time.Microsecond).String())
+		g.holdEnd = time.Time{}
 	}
 	if g.final {
 		g.obs.AfterFinal = append(g.obs.AfterFinal, kind)
@@ -136,7 +153,7 @@ func (g *gateWriter) enter(kind string) (forward bool, holdIt bool) {
 		g.last = "next:" + itoa(g.nexts)
 	}
 	switch {
-	case kind == "next" && g.hold == "next:"+itoa(g.nexts), kind == "complete" && g.hold == "complete":
+	case kind == "next" && g.holds("next:"+itoa(g.nexts)), kind == "complete" && g.holds("complete"):
 		g.obs.Held = true
 		// forget arrivals from before the hold
 		for len(g.arrived) > 0 {
@@ -145,6 +162,15 @@ func (g *gateWriter) enter(kind string) (forward bool, holdIt bool) {
 		return true, true
 	}
 	return true, false
+}
+
+func (g *gateWriter) holds(what string) bool {
+	for _, h := range strings.Split(g.hold, ",") {
+		if h == what {
+			return true
+		}
+	}
+	return false
 }
 
 func itoa(i int) string {
@@ -205,6 +231,9 @@ func (g *gateWriter) Flush() {
 	if hold {
 		// a slow client: the flush returns late, the caller's critical section stays open
 		time.Sleep(holdFlush)
+		g.mu.Lock()
+		g.holdEnd = time.Now()
+		g.mu.Unlock()
 	}
 }
 
@@ -213,7 +242,7 @@ func serveGated(w http.ResponseWriter, req *http.Request, h http.Handler, hold s
 	fl, _ := w.(http.Flusher)
 	g := &gateWriter{ResponseWriter: w, fl: fl, hold: hold, interval: interval, inflight: map[string]int{}, arrived: make(chan string, 256)}
 	h.ServeHTTP(g, req)
-	if hold == "return" {
+	if g.holds("return") {
 		// Do has returned; net/http has not been told yet
 		g.mu.Lock()
 		g.returned = true
@@ -229,6 +258,9 @@ func serveGated(w http.ResponseWriter, req *http.Request, h http.Handler, hold s
 	}
 	if obs.AfterReturn == nil {
 		obs.AfterReturn = []string{}
+	}
+	if obs.AfterHold == nil {
+		obs.AfterHold = []string{}
 	}
 	if obs.AfterFinal == nil {
 		obs.AfterFinal = []string{}
